@@ -24,13 +24,16 @@ ASSUMPTIONS = [
 
 
 def configs(tier):
-    W = range(1, 9) if tier == "quick" else range(1, 17)
-    MODS = range(1, 10) if tier == "quick" else range(1, 18)
+    # wide / boundary widths (obligations stay < 1 s each): breakage that only shows above the small sweep
+    WIDE = [12, 16, 17, 31, 32, 33, 64, 65]
+    W = (list(range(1, 9)) if tier == "quick" else list(range(1, 17))) + [w for w in WIDE if tier == "quick" or w > 16]
+    MODS = (list(range(1, 10)) if tier == "quick" else list(range(1, 18))) + [31, 32, 33, 63, 64, 65, 100]
     out = []
     for w in W:
-        out.append({"fn": "popcount_ctz_clz", "w": w})
+        if w <= 33:  # the popcount obligation (integer sum of w bits) needs ~10 s at w = 64: kept out, see DESIGN 13.1
+            out.append({"fn": "popcount_ctz_clz", "w": w})
         out.append({"fn": "lowest_set_bit_masks", "w": w})
-    for b in (range(1, 9) if tier == "quick" else range(1, 17)):
+    for b in W:
         out.append({"fn": "cyclic_mask", "bits": b})
     for mod in MODS:
         out.append({"fn": "mod_incr", "mod": mod})
